@@ -86,4 +86,30 @@ CHECKS["C13"] = {
     "note": TRUSTED + "Not decided: Bevy keeping Local state across run_unsafe calls.",
 }
 
+CHECKS["C14"] = {
+    "technique": "interprocedural path counting of trigger events (syscall whose system is a mutation/insertion/resource scheduler) per accessor; two-path shape rule for set_if_neq (edge conditions on PartialEq::eq); dominator rules for insert (call time) and for the presence check in the deferred insertion scheduler",
+    "text": "Decides the trigger effect of every accessor on every path: reacting accessors exactly one, set_if_neq zero/one split exactly by the comparison with replace and Some(previous), non-reacting accessors none, insertion reactions only behind a presence check. Fired on the pinned tree (insertion reactions for a despawned entity, F2), repaired by fix commit b7248e2; re-fires if the check is removed.",
+    "note": TRUSTED + "Not decided: values ('stores the value' is decided as 'the replace happens').",
+}
+CHECKS["C15"] = {
+    "technique": "closure typestate over MIR: Option::take guard of the stored closure, must-pass-through rules (despawn + revoke after the run on every path), provenance of entity / token / triggers / mode constant inside ReactCommands::once",
+    "text": "Decides that the once wrapper can run its reactor at most once, that every path after the run despawns the reactor's own fresh entity and revokes a clone of the returned token, and that registration, token, storage and despawn share one identity with mode Revokable.",
+    "note": TRUSTED + "Not decided: which trigger fires first (ordering, C01/C02).",
+}
+CHECKS["C16"] = {
+    "technique": "call-graph reachability (no spawn / despawn from world-reactor methods), constant-mode and id provenance, path counting in the App add methods, dominance/ordering and loop-shape rules in EntityReactor::add/remove, A4 exhaustiveness of ReactorType::get_entity, shared reader-gating rules",
+    "text": "Decides that world reactors never spawn or despawn their system and always register Persistent with the resource-held id; that local data is attached to the trigger entity before registration; that removal revokes first and then cleans up once per token entity, removing data only when no entry of the reactor remains; that EntityLocal reads the data of the entity it reports.",
+    "note": TRUSTED + "Not decided: histories over several entities; value of the data.",
+}
+CHECKS["C17"] = {
+    "technique": "take-run-put-back typestate (path counting + must-pass-through) on syscall_with_validation, named_syscall, named_syscall_direct, spawned_syscall; key-origin agreement; generic-argument facts for the cache key",
+    "text": "Decides on every path of the four entry points that the cached system is taken, run exactly once with its deferred commands applied, and put back under the same key (system type / name+type / spawned id); that errors are returned before any run; that initialization happens only when not cached.",
+    "note": TRUSTED + "Not decided: outputs; nested recursive calls beyond the documented warning. One named exception (`?` after run for CallbackSystem::Empty).",
+}
+CHECKS["C18"] = {
+    "technique": "A8 lookup discipline over the deferred-execution call graph (roots: Command::apply impls, systems given to syscall, queued closures, reified setup/cleanup fns, stored callbacks, GC, poll): deny-list of panicking Bevy lookups with dominator-based liveness that is invalidated by intervening &mut World calls; unwrap-of-lookup and panic-on-failure-arm rules; shared abort/release and revoke-exactness rules",
+    "text": "Decides that no framework code that runs at apply time panics on a stale entity or missing component, that deferred inserts of the reactivity API tolerate a despawned entity, that stale targets abort without running anything and release their payload, and that revocation leaves other registrations alone.",
+    "note": TRUSTED + "Not decided: the operation x despawn-point product (covered by its projection onto lookup sites); documented reader-side and missing-plugin panics are API contract.",
+}
+
 NOT_APPLICABLE = {}
